@@ -345,3 +345,76 @@ pub fn periodic_words() -> Vec<String> {
     out.retain(|w| seen.insert(w.clone()));
     out
 }
+
+/// Inputs around a set of given ones (those on which implementation and model differ): each with single settings
+/// toggled, pairwise unions of their test-case lists, and small sets of short words over the characters they use.
+pub fn around(rng: &mut Rng, diffs: &[Case], budget: usize) -> Vec<Case> {
+    let mut seeds: Vec<&Case> = diffs.iter().collect();
+    seeds.sort_by_key(|c| c.tcs.iter().map(|t| t.len()).sum::<usize>() + c.tcs.len());
+    seeds.truncate(400);
+    let mut out: Vec<Case> = vec![];
+    let toggles = [BIT_NO_START, BIT_NO_END, BIT_VERB, BIT_CAP, BIT_ESC, BIT_CI, BIT_REP];
+    for c in seeds.iter().take(150) {
+        for b in toggles {
+            let bits = normalise_flags(c.cfg.bits ^ (1 << b));
+            out.push(Case { tcs: c.tcs.clone(), cfg: Cfg { bits, ..c.cfg } });
+        }
+    }
+    for _ in 0..(budget / 6) {
+        if seeds.len() < 2 { break; }
+        let a = seeds[rng.below(seeds.len())];
+        let b = seeds[rng.below(seeds.len())];
+        let mut t = a.tcs.clone();
+        t.extend(b.tcs.iter().cloned());
+        t.sort();
+        t.dedup();
+        if t.len() <= 8 {
+            out.push(Case { tcs: t, cfg: a.cfg });
+        }
+    }
+    // the characters the differing inputs are made of, most frequent first
+    let mut freq: std::collections::BTreeMap<char, usize> = Default::default();
+    for c in &seeds {
+        for t in &c.tcs {
+            for ch in t.chars() {
+                *freq.entry(ch).or_insert(0) += 1;
+            }
+        }
+    }
+    let mut chars: Vec<(char, usize)> = freq.into_iter().collect();
+    chars.sort_by(|a, b| b.1.cmp(&a.1).then(a.0.cmp(&b.0)));
+    let alph: Vec<String> = chars.iter().take(4).map(|(c, _)| c.to_string()).collect();
+    let alph_ref: Vec<&str> = alph.iter().map(|s| s.as_str()).collect();
+    let mut cfgs: Vec<Cfg> = seeds.iter().map(|c| c.cfg).collect();
+    cfgs.sort_by_key(|c| (c.bits, c.min_rep, c.min_len));
+    cfgs.dedup();
+    if !alph_ref.is_empty() && !cfgs.is_empty() {
+        let ws = words(&alph_ref, 3);
+        while out.len() < budget {
+            let n = 2 + rng.below(4);
+            let mut t: Vec<String> = (0..n).map(|_| ws[rng.below(ws.len())].clone()).collect();
+            t.sort();
+            t.dedup();
+            out.push(Case { tcs: t, cfg: cfgs[rng.below(cfgs.len())] });
+        }
+    }
+    out
+}
+
+/// Test cases whose repetition structure nests three levels deep — ((XXb){2}a){2} — with a character that needs an
+/// escape (metacharacter, line feed / tab, non-ASCII, astral) in the innermost, the middle or the outer level
+pub fn deep_nested_words() -> Vec<Vec<String>> {
+    let mut out = vec![];
+    for x in ["(", "+", ".", "[", "\\", "\n", "\t", " ", "#", "\u{e9}", "\u{1f4a9}", "\u{2028}", "a"] {
+        for (b, a) in [("b", "a"), ("|", "a"), ("b", "$"), ("\u{e9}", "\u{1f4a9}")] {
+            if x == b || x == a { continue; }
+            let inner = format!("{}{}{}", x, x, b);
+            let mid = format!("{}{}{}", inner, inner, a);
+            let w = format!("{}{}", mid, mid);
+            out.push(vec![w.clone()]);
+            out.push(vec![w.clone(), "x".to_string()]);
+            out.push(vec![format!("q{}", w)]);
+        }
+    }
+    out
+}
